@@ -533,3 +533,86 @@ def co2_series_rules(chk, prog, rule_interp: str = None, rule_lookup: str = None
             else:
                 chk.violation(rule_lookup, where, construct, "the label used to read the season's CO2 concentration is not the year of the clock's step start", loc=rs.loc(x))
         chk.floor(rule_lookup, n, 2, "reads of the yearly CO2 series in the season reset")
+
+
+
+# --------------------------------------------------------------------------------------------- np.interp needs ascending x
+
+def interp_sorted(chk, prog, rule: str, only_func: str) -> int:
+    """np.interp(x, xp, fp) silently returns nonsense when xp is not ascending. In `only_func` the xp of every np.interp call is ordered by
+    construction: its definition chain (through order-preserving prepends / appends `np.append([c], X)`, `np.append(X, [c])`) ends in
+    `Y[order]` with `order = np.argsort(Y...)` - and fp is permuted with the same `order` - or in a column of a frame whose reaching
+    definition is `.sort_values("<that column>")` (fp a column of the same frame)."""
+    fi = prog.find_func(only_func)
+    flow = flow_of(fi)
+    cfg = flow.cfg
+    where = f"{fi.module}:{fi.qualname}"
+    n = 0
+
+    def sources(name, at, depth=0):
+        """definitions a name bottoms out in, skipping order-preserving np.append wrappers: list of (ast value, node id)"""
+        out = []
+        for d in flow.defs_reaching(name, at):
+            if d == ENTRY:
+                out.append((None, d))
+                continue
+            a = cfg.nodes[d].ast
+            v = a.value if isinstance(a, ast.Assign) else None
+            if isinstance(v, ast.Call) and norm(v.func) in ("np.append", "numpy.append") and len(v.args) == 2 and depth < 6:
+                inner = [x for x in v.args if isinstance(x, ast.Name) and x.id == name]
+                if inner:
+                    out += sources(name, d, depth + 1)
+                    continue
+            out.append((v, d))
+        return out
+
+    def perm_of(v, at):
+        """('perm', base, order-name) for v = base[order] with order = argsort(base ...)"""
+        if isinstance(v, ast.Subscript) and isinstance(v.value, ast.Name) and isinstance(v.slice, ast.Name):
+            for d in flow.defs_reaching(v.slice.id, at):
+                a = cfg.nodes[d].ast if d != ENTRY else None
+                if isinstance(a, ast.Assign) and isinstance(a.value, ast.Call) and norm(a.value.func) in ("np.argsort", "numpy.argsort") and a.value.args:
+                    return ("perm", v.value.id, v.slice.id, norm(a.value.args[0]))
+        return None
+
+    for c in walk_no_nested(fi.node):
+        if not (isinstance(c, ast.Call) and norm(c.func) in ("np.interp", "numpy.interp") and len(c.args) >= 3):
+            continue
+        n += 1
+        chk.fn(fi.key)
+        nid = flow.node_of(c)
+        xp, fp = c.args[1], c.args[2]
+        construct = norm(c)[:80]
+        ok, why = False, "xp is not ordered by construction"
+        if isinstance(xp, ast.Name) and isinstance(fp, ast.Name):
+            sx = sources(xp.id, nid)
+            sf = sources(fp.id, nid)
+            px = [perm_of(v, d) for v, d in sx]
+            pf = [perm_of(v, d) for v, d in sf]
+            if px and all(px) and all(p[3] == p[1] for p in px):
+                if pf and all(pf) and {p[2] for p in pf} == {p[2] for p in px}:
+                    ok, why = True, f"xp = {px[0][1]}[{px[0][2]}] with {px[0][2]} = argsort({px[0][1]}); fp permuted with the same order"
+                else:
+                    why = "xp is sorted through an argsort but fp is not permuted with the same order: values no longer belong to their points"
+        elif isinstance(xp, ast.Attribute) and isinstance(fp, ast.Attribute) and isinstance(xp.value, ast.Name) and isinstance(fp.value, ast.Name):
+            if xp.value.id == fp.value.id:
+                defs = [cfg.nodes[d].ast if d != ENTRY else None for d in flow.defs_reaching(xp.value.id, nid)]
+                good = bool(defs)
+                for a in defs:
+                    v = a.value if isinstance(a, ast.Assign) else None
+                    srt = isinstance(v, ast.Call) and isinstance(v.func, ast.Attribute) and v.func.attr == "sort_values" and (
+                        (v.args and isinstance(v.args[0], ast.Constant) and v.args[0].value == xp.attr)
+                        or any(k.arg == "by" and isinstance(k.value, ast.Constant) and k.value.value == xp.attr for k in v.keywords))
+                    good = good and srt
+                if good:
+                    ok, why = True, f"both columns of `{xp.value.id}`, sorted by '{xp.attr}' on every reaching definition"
+                else:
+                    why = f"the frame `{xp.value.id}` is not sorted by '{xp.attr}' before the interpolation"
+            else:
+                why = "xp and fp are columns of different frames"
+        if ok:
+            chk.ok(rule, where, construct, why)
+        else:
+            chk.violation(rule, where, construct, why + ": np.interp requires ascending x values and returns nonsense silently otherwise (points given in another order are "
+                          "valid input)", loc=fi.loc(c))
+    return n
